@@ -1,6 +1,7 @@
 import BronVerif.Drive.Common
 import BronVerif.Model.Bf128
 import BronVerif.Model.OT
+import BronVerif.Model.PackedBits
 import BronVerif.Model.Rvole
 /-! Driver handlers for C09 (OT correlation, SoftSpoken check, rvole check, bf128). -/
 namespace BronVerif.Drive.C09
@@ -36,6 +37,22 @@ def bfList? (s : String) : Option (List BF) := (parseNatList? s).map fun xs => x
 
 def bf16Hex (x : BF) : String := bytesHex (natBE16 x.val)
 
+/-- `<nrows>:<row>,<row>,…` with `-` for an empty row -/
+def matrix? (s : String) : Option (List (List Nat)) :=
+  match s.splitOn ":" with
+  | [ns, body] =>
+    match ns.toNat? with
+    | some 0 => if body == "" then some [] else none
+    | some n =>
+      match (body.splitOn ",").mapM bytesList? with
+      | some rows => if rows.length == n then some rows else none
+      | none => none
+    | none => none
+  | _ => none
+
+def matrixStr (m : List (List Nat)) : String :=
+  toString m.length ++ ":" ++ ",".intercalate (m.map bytesHex)
+
 /-! ### handlers -/
 
 def handleBf (op : String) (args : List String) (rhs : String) : Verdict :=
@@ -60,12 +77,56 @@ def handleBits (op : String) (args : List String) (rhs : String) : Verdict :=
       spec "bits-pack" model rhs
   | "bitsrepeat", [s, ns] =>
     match bytesList? s, ns.toNat? with
-    | some p, some n => spec "bits-repeat" (bytesHex (pack (repeatBits (unpack p) n))) rhs
+    | some p, some n =>
+      -- the unpacked model and the byte-level loop model (`Props/C09Bits.packedbits_repeat`) must both agree
+      match spec "bits-repeat" (bytesHex (pack (repeatBits (unpack p) n))) rhs with
+      | .ok => spec "bits-repeat" (bytesHex (PackedBits.repeatBits p n)) rhs
+      | v => v
     | _, _ => .unsupported "args"
   | "bitstranspose", [_rs, cs, ms] =>
     match cs.toNat?, rowsOf? ms with
     | some cb, some rows => spec "bits-transpose" (rowsHex (transpose rows (8 * cb))) rhs
     | _, _ => .unsupported "args"
+  | "bitsget", [s, is] =>
+    match bytesList? s, is.toNat? with
+    | some p, some i =>
+      if i ≥ 8 * p.length then .unsupported "index" else
+      spec "bits-get" (if PackedBits.get p i then "1" else "0") rhs
+    | _, _ => .unsupported "args"
+  | "bitsset", [s, is] =>
+    match bytesList? s, is.toNat? with
+    | some p, some i =>
+      if i ≥ 8 * p.length then .unsupported "index" else spec "bits-set" (bytesHex (PackedBits.set p i)) rhs
+    | _, _ => .unsupported "args"
+  | "bitsclear", [s, is] =>
+    match bytesList? s, is.toNat? with
+    | some p, some i =>
+      if i ≥ 8 * p.length then .unsupported "index" else spec "bits-clear" (bytesHex (PackedBits.clear p i)) rhs
+    | _, _ => .unsupported "args"
+  | "bitsswap", [s, is, js] =>
+    match bytesList? s, is.toNat?, js.toNat? with
+    | some p, some i, some j =>
+      if i ≥ 8 * p.length ∨ j ≥ 8 * p.length then .unsupported "index" else
+      spec "bits-swap" (bytesHex (PackedBits.swap p i j)) rhs
+    | _, _, _ => .unsupported "args"
+  | "bitstp", [ms] =>
+    match matrix? ms with
+    | none => .unsupported "args"
+    | some m =>
+      let model := match PackedBits.transposePacked m with
+        | none => "reject"
+        | some t => matrixStr t
+      if model == rhs then
+        -- second opinion on accepted inputs: the unpacked-row model of `Model/OT.lean`
+        match PackedBits.transposePacked m with
+        | none => .ok
+        | some t =>
+          let C := (m.headD []).length
+          if (transpose (m.map unpack) (8 * C)).map pack == t ∨ m.length = 0 ∨ C = 0 then .ok
+          else .unsupported "the two transposition models disagree"
+      else if model != "reject" && rhs != "reject" then
+        .bad "bits-transpose" "transposed matrix ≠ bit-wise transpose of the input"
+      else .diff model
   | _, _ => .unsupported ("C09 " ++ op)
 
 /-- `ot <proto> <curve> <xi> <l> <choices> => ok:<s0>|<s1>|<recv>` -/
@@ -179,7 +240,8 @@ def handleFault (rhs : String) : Verdict :=
 def handle (op : String) (args : List String) (rhs : String) : Verdict :=
   match op with
   | "bfmul" | "bfadd" | "bfinv" | "bfdiv" | "bfmisc" => handleBf op args rhs
-  | "bitspack" | "bitsrepeat" | "bitstranspose" => handleBits op args rhs
+  | "bitspack" | "bitsrepeat" | "bitstranspose" | "bitsget" | "bitsset" | "bitsclear" | "bitsswap" | "bitstp" =>
+    handleBits op args rhs
   | "ot" => handleOt args rhs
   | "ssrecv" => handleSsRecv args rhs
   | "sssend" => handleSsSend args rhs
